@@ -36,6 +36,7 @@ type PropCfg struct {
 	Exempt     map[string]string `json:"exempt"`  // handler (short name) -> reason why it carries no obligation of this property
 	Functions  []string     `json:"functions"`  // additional functions that must be under contract and verified
 	Bounded    []string     `json:"bounded"`    // names of bounded stand-ins (thorough tier)
+	Lemmas     []string     `json:"lemmas"`     // SMT-LIB lemma files (spec/lemmas): every check-sat must be unsat
 	Explain    string       `json:"explanation"`
 	Assumes    []string     `json:"assumptions"`
 	Dropped    []string     `json:"dropped_by_translation"`
@@ -272,8 +273,10 @@ func cmdCheck(args []string) {
 			}
 			if rep := tryReplay(cfg, fn, name, o, sess, replayDir); rep != "" {
 				fmt.Fprintf(&sb, "--- replay on the real code ---\n%s\n", rep)
-				if strings.Contains(rep, "REPRODUCED") {
-					suffix = ""
+				for _, ln := range strings.Split(rep, "\n") {
+					if strings.HasPrefix(strings.TrimSpace(ln), "REPRODUCED") {
+						suffix = ""
+					}
 				}
 			}
 		}
@@ -496,6 +499,29 @@ func cmdCheck(args []string) {
 			funcs = append(funcs, fr)
 		}
 	}
+	// pure lemmas (composition of contracts into the property statement)
+	for _, lf := range cfg.Lemmas {
+		path := filepath.Join(*specDir, "lemmas", lf)
+		names, results, solver, ms := runLemmaFile(path, *sec*3)
+		solverMs += ms
+		if len(names) == 0 {
+			problem("lemma-error", lf, "lemma", "no lemma could be run: "+strings.Join(results, " "), nil, nil)
+		}
+		for i, n := range names {
+			nObl++
+			r := "error"
+			if i < len(results) {
+				r = results[i]
+			}
+			obls = append(obls, oblReport{Name: "lemma." + n, Func: lf, Result: r, Solver: solver})
+			if r == "unsat" {
+				nDis++
+			} else {
+				problem("undecided:"+r, lf, "lemma."+n, "lemma not proved", nil, nil)
+			}
+		}
+		trusted["assumed facts A1.. stated at the top of spec/lemmas/"+lf] = true
+	}
 	// dedupe violations (same obligation on several paths)
 	violations = uniq(violations)
 	knownLines = uniq(knownLines)
@@ -626,7 +652,3 @@ func fatal(err error) {
 	os.Exit(2)
 }
 
-// tryReplay: concrete replay of a counterexample on the real code (replay.go).
-func tryReplay(cfg *PropCfg, fn, name string, o *Obligation, sess *Session, dir string) string {
-	return ""
-}
